@@ -372,6 +372,10 @@ def run_harness(unit, h, src_c, workdir, label_by_line, mode='proof', solver=Non
         # canaries are assertions that are *meant* to fail (reachability witnesses)
         real = [r for r in res if r['status'] != 'SUCCESS' and 'VACUITY_CANARY' not in r['desc']]
         status = 'failed' if real else 'ok'
+        # UNKNOWN / ERROR: CBMC could not decide these (seen when a check raised while evaluating the
+        # requires clauses fails first): undecided, never a refutation
+        if any(r['status'] in ('UNKNOWN', 'ERROR') for r in res):
+            status = 'toolerror'
     else:
         status = 'toolerror'
     src_name = os.path.basename(src_c)
